@@ -97,13 +97,13 @@ class Unpicklable:
 
 
 def value_pool(r, codec, stream):
-    scal = [0, 1, -5, 2 ** 40, 'v', 'w w', '', 1.5, -0.25, None, True]
+    scal = [0, 1, -5, 2 ** 40, 'v', 'w w', '', 1.5, -0.25, None, True, 'caf\u00e9 \u4e2d\u6587']
     pools = {
         'mem': scal + [(1, 2), [1, [2]], {'a': 1}, b'by', float('inf')],
         'pickle': scal + [(1, 2), [1, [2, 'x']], {'a': (1,)}, b'by', float('inf'), {1: 2}, ((),)],
         'json': scal + [[1, 2], [1, ['x', None]], {'a': 1, 'b': [2]}, {}],
-        'source': [0, 1, -5, 2 ** 40, 'v', 'w w', '', 1.5, None, True, (1, 2), [1, [2]], {'a': 1}],
-        'sql': [0, 1, -5, 2 ** 40, 'v', 'w w', '', 1.5, -0.25, None, True, b'by'],
+        'source': [0, 1, -5, 2 ** 40, 'v', 'w w', '', 1.5, None, True, (1, 2), [1, [2]], {'a': 1}, 'caf\u00e9 \u4e2d\u6587'],
+        'sql': [0, 1, -5, 2 ** 40, 'v', 'w w', '', 1.5, -0.25, None, True, b'by', 'caf\u00e9 \u4e2d\u6587'],
     }
     pool = list(pools[codec])
     if stream == 'bad':
